@@ -4,6 +4,7 @@ package main
 // fatal runtime error or a hang is an *observation* about one case and not the end of the run.
 
 import (
+	"syscall"
 	"bufio"
 	"encoding/json"
 	"fmt"
@@ -63,11 +64,23 @@ func workerMain(name string) {
 		os.Exit(3)
 	}
 	debug.SetMaxStack(256 << 20)
+	// the case protocol moves to private descriptors; evaluated code that reads //os.stdin or
+	// prints sees /dev/null and stderr instead of the protocol streams
+	pin, pout := os.Stdin, os.Stdout
+	if inFd, err := syscall.Dup(0); err == nil {
+		if outFd, err := syscall.Dup(1); err == nil {
+			if null, err := os.Open(os.DevNull); err == nil {
+				pin, pout = os.NewFile(uintptr(inFd), "cases"), os.NewFile(uintptr(outFd), "obs")
+				_ = syscall.Dup3(int(null.Fd()), 0, 0)
+				_ = syscall.Dup3(2, 1, 0)
+			}
+		}
+	}
 	if init, ok := handlerInit[name]; ok {
 		init()
 	}
-	in := bufio.NewReaderSize(os.Stdin, 1<<20)
-	out := bufio.NewWriterSize(os.Stdout, 1<<20)
+	in := bufio.NewReaderSize(pin, 1<<20)
+	out := bufio.NewWriterSize(pout, 1<<20)
 	enc := json.NewEncoder(out)
 	for {
 		line, err := in.ReadBytes('\n')
@@ -97,7 +110,7 @@ func safeHandle(h Handler, line []byte) (obs *Obs) {
 
 // panicInfo returns the panic message and the first stack frame inside github.com/arr-ai/arrai.
 func panicInfo(e interface{}) (string, string) {
-	msg := fmt.Sprint(e)
+	msg := safeSprint(e)
 	buf := make([]byte, 1<<16)
 	buf = buf[:runtime.Stack(buf, false)]
 	frame := ""
@@ -162,7 +175,9 @@ func (p *Pool) spawn() *worker {
 	}
 	cmd := exec.Command(bin, "worker", p.Handler)
 	cmd.Env = append(os.Environ(), p.Env...)
-	cmd.Stderr = nil
+	if os.Getenv("VERIF_WORKER_STDERR") != "" {
+		cmd.Stderr = os.Stderr
+	}
 	in, err := cmd.StdinPipe()
 	must(err)
 	out, err := cmd.StdoutPipe()
@@ -255,4 +270,24 @@ func (p *Pool) Run(cases <-chan []byte, sink func(c []byte, o *Obs)) {
 		}()
 	}
 	wg.Wait()
+}
+
+// safeSprint renders a panic value or error.  Rendering a wbnf ParseError can take exponential time
+// (a known finding of C10), so the rendering runs aside and is abandoned after two seconds.
+func safeSprint(e interface{}) string {
+	done := make(chan string, 1)
+	go func() {
+		defer func() {
+			if r := recover(); r != nil {
+				done <- "(unprintable)"
+			}
+		}()
+		done <- fmt.Sprint(e)
+	}()
+	select {
+	case m := <-done:
+		return m
+	case <-time.After(2 * time.Second):
+		return fmt.Sprintf("(%T: message not rendered within 2s)", e)
+	}
 }
